@@ -97,7 +97,7 @@ def sensitivity(args):
     its meta.json exit 1 within the quick budget (on a scratch copy; /repo is
     never touched)."""
     metas = sorted(glob.glob(os.path.join(VERIF, "seeded", "*", "meta.json")))
-    missed, rows = [], []
+    missed, rows, unreplayed = [], [], []
     for mpath in metas:
         with open(mpath) as fh:
             meta = json.load(fh)
@@ -128,7 +128,18 @@ def sensitivity(args):
                         if "violation: oracle=" in ln:
                             oracle = ln.split("violation: ", 1)[1]
                             break
-                    rows.append((sid, chk, hit, oracle, round(time.time() - t0, 1), int(seed)))
+                    verified = None
+                    for ln in p.stdout.splitlines():
+                        if ln.startswith("VIOLATION property=") and "replay=" in ln:
+                            try:
+                                with open(ln.split("replay=", 1)[1].strip()) as fh:
+                                    verified = json.load(fh).get("replay_verified_in_fresh_interpreter")
+                            except Exception:  # noqa: BLE001
+                                verified = "unreadable"
+                    rows.append((sid, chk, hit, oracle, round(time.time() - t0, 1), int(seed), verified))
+                    if hit and verified is not True:
+                        print(f"[sensitivity] {sid} vs {chk}: replay file did NOT reproduce in a fresh interpreter ({verified})", flush=True)
+                        unreplayed.append(f"{sid}/{chk}/seed{seed}")
                     print(f"[sensitivity] {sid} vs {chk} seed={seed}: {'caught' if hit else 'MISSED (rc=%d)' % p.returncode} {oracle} ({time.time() - t0:.1f}s)", flush=True)
                     if not hit:
                         missed.append(f"{sid}/{chk}/seed{seed}")
@@ -138,10 +149,11 @@ def sensitivity(args):
                 os.unlink(f)
     out = os.path.join(VERIF, "evidence", "selftest-sensitivity.json")
     with open(out, "w") as fh:
-        json.dump({"rows": [dict(zip(("seeded", "check", "caught", "oracle", "seconds", "verif_seed"), r)) for r in rows], "missed": missed}, fh, indent=1)
+        json.dump({"rows": [dict(zip(("seeded", "check", "caught", "oracle", "seconds", "verif_seed", "replay_reproduced_in_fresh_interpreter"), r)) for r in rows], "missed": missed,
+                   "replay_not_reproduced": unreplayed}, fh, indent=1)
         fh.write("\n")
-    print(f"[sensitivity] {len(rows) - len(missed)} of {len(rows)} caught; missed: {missed}")
-    return 0 if not missed else 2
+    print(f"[sensitivity] {len(rows) - len(missed)} of {len(rows)} caught; missed: {missed}; replay files not reproduced: {unreplayed}")
+    return 0 if not (missed or unreplayed) else 2
 
 
 def crashmodel(args):
